@@ -53,6 +53,9 @@ func ForLookup(domain string) (string, error) {
 	// important to apply NFC normalization first.
 	uDomain = norm.NFC.String(uDomain)
 	uDomain = strings.ToLower(uDomain)
+	// Lower-casing can produce a sequence that has a precomposed form its
+	// upper-case counterpart lacks, normalize again.
+	uDomain = norm.NFC.String(uDomain)
 	uDomain = strings.TrimSuffix(uDomain, ".")
 	return uDomain, nil
 }
